@@ -106,6 +106,21 @@ fn opt_bytes(env: &Env, b: &[u8]) -> Option<Bytes> {
     }
 }
 
+/// the same message with an absent optional byte field (data / minter) replaced by a present, empty one
+fn with_present_empty_field(env: &Env, m: &rt::HubMessage) -> Option<rt::HubMessage> {
+    let fix = |msg: &rt::Message| -> Option<rt::Message> {
+        match msg {
+            rt::Message::InterchainTransfer(t) if t.data.is_none() => Some(rt::Message::InterchainTransfer(rt::InterchainTransfer { data: Some(Bytes::new(env)), ..t.clone() })),
+            rt::Message::DeployInterchainToken(d) if d.minter.is_none() => Some(rt::Message::DeployInterchainToken(rt::DeployInterchainToken { minter: Some(Bytes::new(env)), ..d.clone() })),
+            _ => None,
+        }
+    };
+    match m {
+        rt::HubMessage::SendToHub { destination_chain, message } => fix(message).map(|message| rt::HubMessage::SendToHub { destination_chain: destination_chain.clone(), message }),
+        rt::HubMessage::ReceiveFromHub { source_chain, message } => fix(message).map(|message| rt::HubMessage::ReceiveFromHub { source_chain: source_chain.clone(), message }),
+    }
+}
+
 fn to_repo(env: &Env, h: &AHub) -> rt::HubMessage {
     let message = match &h.msg {
         AMsg::Transfer { id, src, dst, amount, data } => rt::Message::InterchainTransfer(rt::InterchainTransfer {
@@ -300,6 +315,20 @@ impl World for WorldC {
                     let dec = repo_decode(&env, &ours);
                     if !ctx.check(matches!(&dec, Ok(Some(d)) if *d == h), &["C10"], "codec/round-trip-differs", || format!("decode(encode(m)) = {:?}, m = {:?}", dec, h)) {
                         break;
+                    }
+                    // an optional byte field that is present but empty is a representable message too: same bytes
+                    if let Some(present) = with_present_empty_field(&env, &repo) {
+                        ctx.count("probe.codec_present_but_empty_optional_field");
+                        let pe = catch_unwind(AssertUnwindSafe(|| present.abi_encode(&env)));
+                        let peb: Option<Vec<u8>> = match pe {
+                            Ok(Ok(b)) => Some(b.to_alloc_vec()),
+                            _ => None,
+                        };
+                        if !ctx.check(peb.as_deref() == Some(&ours[..]), &["C10"], "codec/encoding-differs-from-solidity-abi", || {
+                            format!("message {:?} with its empty optional field present: repository encoding {:?} independent encoding {}", h, peb.as_ref().map(hex::encode), hex::encode(&ours))
+                        }) {
+                            break;
+                        }
                     }
                     // the bare inner message too
                     let inner_ours = h.msg.encode();
